@@ -190,7 +190,9 @@ class VerilogTransformer(Transformer):
                         s = cname
                         Line(c, cnode, Node(c, s))
                     if s not in c.forks:
-                        if f'{s}[0]' in c.forks:  # actually a 1-bit bus?
+                        if s in sig_decls and len(sig_decls[s].names) == 1 and sig_decls[s].names[0] in c.forks:
+                            s = sig_decls[s].names[0]  # actually a 1-bit bus (with any index)
+                        elif f'{s}[0]' in c.forks:
                             s = f'{s}[0]'
                         else:
                             log.warn(f'Signal not driven: {s}')
